@@ -162,6 +162,36 @@ def _unpickle_gen(i):
     return SymGenerator(*REG[i])
 
 
+class SymRandomState:
+    """np.random.RandomState(seed) handed to an estimator: a stateful stream; every estimator fit that draws from it
+    sees (and advances) the current position"""
+
+    def __init__(self, seed=None, state=None):
+        self.seed = seed
+        if state is None:
+            s = lift(seed if seed is not None else 0)
+            if s.sort() != I:
+                s = z3.ToInt(s)
+            state = uf('rs_init', I, RS)(s)
+        self.state = state
+
+    def take(self):
+        ident = uf('rs_ident', RS, I)(self.state)
+        self.state = uf('rs_next', RS, RS)(self.state)
+        return ident
+
+    def __deepcopy__(self, memo):
+        return SymRandomState(self.seed, self.state)
+
+    def __reduce__(self):
+        REG.append((self.seed, self.state))
+        return (_unpickle_rs, (len(REG) - 1,))
+
+
+def _unpickle_rs(i):
+    return SymRandomState(*REG[i])
+
+
 # ------------------------------------------------------------------------------------------------
 # concrete generators used by replays (real mabwiser code, no symbolic values)
 
@@ -338,7 +368,7 @@ class KMeansStub:
         self._fitted = None
 
     def __deepcopy__(self, memo):
-        c = type(self)(self.n_clusters, self.random_state, self.n_init)
+        c = type(self)(self.n_clusters, copy.deepcopy(self.random_state, memo), self.n_init)
         c._fitted = self._fitted
         if hasattr(self, 'labels_'):
             c.labels_ = self.labels_.copy()
@@ -354,7 +384,13 @@ class KMeansStub:
             raise ValueError('Expected 2D array')
         if X.shape[0] < self.n_clusters:
             raise ValueError('n_samples=%d should be >= n_clusters=%d.' % (X.shape[0], self.n_clusters))
-        self._fitted = (X.shape, _matkey(X))
+        if isinstance(self.random_state, SymRandomState):
+            rs = self.random_state.take()
+        else:
+            rs = lift(self.random_state if self.random_state is not None else 0)
+            if rs.sort() != I:
+                rs = z3.ToInt(rs)
+        self._fitted = (X.shape, _matkey(X), rs)
         self.labels_ = self.predict(X)
         return self
 
@@ -362,15 +398,12 @@ class KMeansStub:
         if self._fitted is None:
             raise AttributeError('This KMeans instance is not fitted yet.')
         X = np.asarray(X)
-        shape, key = self._fitted
+        shape, key, rs = self._fitted
         d = shape[1]
         if X.ndim != 2 or X.shape[1] != d:
             raise ValueError('X has %s features, but KMeans is expecting %d features as input.' % (X.shape[1:], d))
         f = uf('%s_%dx%d' % (self.KIND, shape[0], d), *([I] + [R] * (len(key) + d) + [I]))
         c = cur()
-        rs = lift(self.random_state if self.random_state is not None else 0)
-        if rs.sort() != I:
-            rs = z3.ToInt(rs)
         out = []
         terms = []
         for row in X:
@@ -394,6 +427,11 @@ TREE_LEAVES = [2]   # bound L on the number of distinct leaves of a stub tree
 _TREE_PARAMS = None
 
 
+def _tree_defaults():
+    from sklearn.tree import DecisionTreeRegressor
+    return DecisionTreeRegressor().get_params()
+
+
 def _tree_params():
     global _TREE_PARAMS
     if _TREE_PARAMS is None:
@@ -411,11 +449,12 @@ class TreeStub:
         if bad:
             raise TypeError("DecisionTreeRegressor.__init__() got an unexpected keyword argument '%s'" % sorted(bad)[0])
         self._params = dict(params)
+        self.__dict__.update(_tree_defaults())
         self.__dict__.update(params)
         self._fitted = None
 
     def get_params(self, deep=True):
-        return dict(self._params)
+        return dict(_tree_defaults(), **self._params)
 
     def __deepcopy__(self, memo):
         c = TreeStub(**self._params)
@@ -502,10 +541,12 @@ class ScriptedTree:
         if bad:
             raise TypeError("DecisionTreeRegressor.__init__() got an unexpected keyword argument '%s'" % sorted(bad)[0])
         self._params = dict(params)
+        self.__dict__.update(_tree_defaults())
+        self.__dict__.update(params)
         self._d = None
 
     def get_params(self, deep=True):
-        return dict(self._params)
+        return dict(_tree_defaults(), **self._params)
 
     def fit(self, X, y, **kw):
         X = np.asarray(X)
